@@ -51,6 +51,13 @@ codes = st.one_of(
 )
 
 
+# how the reply reaches the client: handed over as text (canned), or as an HTTP response through the
+# library's own Transport (single_request / parse_response) in every framing a peer may use
+wires = st.sampled_from([None, None, "length", "chunked", "close", "gzip", "length-lowercase"])
+# where the call is made: directly, or inside _additional_headers blocks (with/without constructor headers)
+contexts = st.sampled_from(["plain", "plain", "block", "ctor+block", "nested", "ctor-only", "empty-block"])
+
+
 @st.composite
 def error_objects(draw):
     e = {}
@@ -89,6 +96,7 @@ def error_cases(draw):
         "pos": draw(st.integers(0, 3)),
         "n": draw(st.integers(1, 4)),
         "repeat": draw(st.sampled_from([0, 0, 1, 2])),
+        "wire": draw(wires), "ctx": draw(contexts), "sizes": draw(st.lists(st.integers(1, 40), max_size=4)),
     }
 
 
@@ -102,6 +110,7 @@ def success_cases(draw):
         "path": draw(st.sampled_from(PATHS)),
         "pos": draw(st.integers(0, 3)),
         "n": draw(st.integers(1, 4)),
+        "wire": draw(wires), "ctx": draw(contexts), "sizes": draw(st.lists(st.integers(1, 40), max_size=4)),
     }
 
 
@@ -146,23 +155,50 @@ def access(case, reply):
         ret = J.check_for_errors(parsed)
         return ("cfe", ret, parsed)
     cfg = Config()
-    tr = CannedTransport(cfg)
-    proxy = J.ServerProxy("http://loopback/", transport=tr, config=cfg)
+    wire = case.get("wire")
+    ctx = case.get("ctx", "plain")
+    if wire:
+        from vlib.loopback import WireTransport, wire_reply
+        tr = WireTransport(cfg)
+
+        def set_reply(t):
+            tr.raw_reply = wire_reply(t.encode("utf-8"), wire, case.get("sizes", ()))
+    else:
+        tr = CannedTransport(cfg)
+
+        def set_reply(t):
+            tr.reply = t
+    ctor = {"X-Ctor": "c"} if ctx in ("ctor+block", "ctor-only", "nested") else None
+    proxy = J.ServerProxy("http://loopback/", transport=tr, config=cfg, headers=ctor)
+    blocks = {"plain": [], "ctor-only": [], "block": [{"X-One": "1"}], "ctor+block": [{"X-One": "1"}],
+              "nested": [{"X-One": "1"}, {"X-Two": "2"}], "empty-block": [{}]}[ctx]
+
+    def in_context(f):
+        # the exception of the innermost statement must come out of every enclosing block
+        if not blocks:
+            return f()
+        import contextlib
+        with contextlib.ExitStack() as stack:
+            for h in blocks:
+                stack.enter_context(proxy._additional_headers(h))
+            out = f()
+            return out
+
     if path == "proxy":
-        tr.reply = text
-        return ("value", proxy.some.method(1, "x"), None)
+        set_reply(text)
+        return ("value", in_context(lambda: proxy.some.method(1, "x")), None)
     if path == "notify":
-        tr.reply = text
-        return ("value", proxy._notify.some_method(1), None)
+        set_reply(text)
+        return ("value", in_context(lambda: proxy._notify.some_method(1)), None)
     n = max(case["n"], 1)
     pos = case["pos"] % n
     items = [{"jsonrpc": "2.0", "id": i, "result": ["ok", i]} for i in range(n)]
     items[pos] = reply
-    tr.reply = json.dumps(items)
+    set_reply(json.dumps(items))
     mc = J.MultiCall(proxy)
     for i in range(n):
         getattr(mc, "m%d" % i)(i)
-    results = mc()
+    results = in_context(mc)
     if len(results) != n:
         fail("C06/batch-length", "MultiCall yielded %d results for %d replies" % (len(results), n))
     repeat = case.get("repeat", 0)
@@ -189,8 +225,8 @@ def access(case, reply):
             first()
         except J.ProtocolError:
             pass
-        return ("value", (first if repeat == 1 else second)(), None)
-    return ("value", first(), None)
+        return ("value", in_context(first if repeat == 1 else second), None)
+    return ("value", in_context(first), None)
 
 
 def shape_of(error):
@@ -293,7 +329,10 @@ def oracle(case):
         nt = True
     if case.get("repeat") and path.startswith("batch"):
         classes.append("repeated-access")
-    return Info(nt=nt, classes=classes, sample={"reply": reply, "path": path})
+    if path != "cfe":
+        classes.append("wire:%s" % (case.get("wire") or "canned"))
+        classes.append("context:%s" % case.get("ctx", "plain"))
+    return Info(nt=nt, classes=classes, sample={"reply": reply, "path": path, "wire": case.get("wire"), "ctx": case.get("ctx")})
 
 
 SUBS = [
